@@ -18,7 +18,7 @@ LEVEL_NOTE = ("Trusted: the 20-line sequence model in this file. The agent's thr
 RULE = ("case = list of operations; non-trivial = a start or resume that re-injects >=2 buffered messages, or a "
         "resume that flushes >=2 posts; distinct by sha1(case)")
 ASSUMPTIONS = ["single agent; no concurrent thread touches the queue (thread interleavings belong to C18/C21)"]
-BUDGET = {"quick": {"workers": 4, "examples": 1200, "seconds": 40},
+BUDGET = {"quick": {"workers": 8, "examples": 2500, "seconds": 40},
           "thorough": {"workers": 16, "examples": 10000, "seconds": 480}}
 
 op = st.one_of(
